@@ -29,6 +29,13 @@ impl fmt::Debug for Value {
 }
 
 impl Value {
+    /// `x` as a value of the spec's float family
+    pub fn f64_or_f32(spec: &crate::spec::Spec, x: f64) -> Value {
+        match spec.fam {
+            crate::spec::Fam::F32 => Value::F32((x as f32).to_bits()),
+            _ => Value::F64(x.to_bits()),
+        }
+    }
     pub fn f32(x: f32) -> Value {
         Value::F32(x.to_bits())
     }
